@@ -231,12 +231,17 @@ func (c *Client) Connect() error {
 		}
 	}
 
+	c.startRoutines()
+	return err
+}
+
+// startRoutines starts the go routines of an established session.
+func (c *Client) startRoutines() {
 	// Start the keepalive go routine
 	keepaliveQuit := make(chan struct{})
 	go keepalive(c.transport, c.config.KeepaliveInterval, keepaliveQuit)
 	// Start the receiver go routine
 	go c.recv(keepaliveQuit)
-	return err
 }
 
 // connect establishes an actual TCP connection, based on previously defined parameters, as well as a XMPP session
@@ -291,6 +296,8 @@ func (c *Client) Resume() error {
 	if c.PostResumeHook != nil {
 		err = c.PostResumeHook()
 	}
+	// The new connection needs its receiver and keepalive too.
+	c.startRoutines()
 	return err
 }
 
